@@ -1,6 +1,7 @@
 import RbV.Basic.Codec
 import RbV.Basic.AlignCodec
 import RbV.Ref.Gotoh
+import RbV.Model.PairwiseCustom
 /-! Driver for property C01: pairwise alignment optimal, path achieves score, history independent.
 
 `c01 const => min:<MIN_SCORE>`
@@ -40,7 +41,13 @@ def checkCall (sc : Sc) (cl : Clip) (idx : Nat) (call : String × List Nat × Li
         else if !rest.contains "h:same" then .error "bad-op no-history-field"
         else
           let core := coreOps o.ops
-          .ok ((if !x.isEmpty && !y.isEmpty && !core.isEmpty then ["nt"] else [])
+          -- mirror model of `Aligner::custom`, run on the same call (tie-breaks included); a difference is
+          -- model drift, not a violation
+          let mtag := match (Model.Pairwise.custom sc cl' x y).map
+              (fun r => if filt then Model.Pairwise.filterClips r else r) with
+            | some r => if r == o then "model=impl" else if r.score == o.score then "drift-path" else "drift-score"
+            | none => "drift-model-no-termination"
+          .ok ([mtag] ++ (if !x.isEmpty && !y.isEmpty && !core.isEmpty then ["nt"] else [])
             ++ [mode]
             ++ (if x.isEmpty || y.isEmpty then ["emptyseq"] else [])
             ++ (if hasClip o.ops then ["clipops"] else [])
